@@ -24,7 +24,8 @@ EXTRACT = os.path.join(VERIF, "tools", "extract")
 WORK = os.environ.get("VERIF_WORK", os.path.join(VERIF, ".work"))
 EVIDENCE = os.path.join(VERIF, "evidence")
 ALLOWED_AXIOMS = {"propext", "Classical.choice", "Quot.sound"}
-FORBIDDEN = re.compile(r"\b(sorry|admit|native_decide|bv_decide|implemented_by)\b|^\s*axiom\s|unsafe\s|maxHeartbeats\s+0")
+# `admit` only in tactic position (identifiers such as `Outcome.admit` or a constructor `| admit` are fine)
+FORBIDDEN = re.compile(r"\b(sorry|native_decide|bv_decide|implemented_by)\b|(^|\bby|;|<;>|·|\()\s*admit\b|^\s*axiom\s|unsafe\s|maxHeartbeats\s+0")
 
 GOENV = dict(os.environ)
 GOENV.update({"GOFLAGS": "-mod=mod", "GOPROXY": "off", "GOTOOLCHAIN": "auto", "CGO_ENABLED": "1"})
@@ -189,6 +190,8 @@ def build_repo_binary(pkg, name):
             p = os.path.join(REPO, fn)
             snap[fn] = open(p, "rb").read()
         try:
+            if os.path.exists(out):
+                os.remove(out)   # never test a stale binary when the build fails
             rc, o = sh(["go", "build", "-o", out, pkg], cwd=REPO, env=GOENV, timeout=1800)
         finally:
             for fn, b in snap.items():
